@@ -44,15 +44,31 @@ type world struct {
 	nval  int
 	keys  []string
 	vlen  int
+	pend  *pendingOp // the operation in flight (set before the call, cleared when it returns)
+	stepKeys []string // keys the history alphabet writes (default: keys)
 }
+
+type pendingOp struct {
+	kind int // 0 set, 1 delete, 2 commit
+	t    int
+	key  string
+	val  []byte
+}
+
+// concreteCounter: harnesses whose subject is not the counter (C04) start every process at 0.
+var concreteCounter bool
 
 func newWorld(cfg config.Config, keys []string) *world {
 	w := &world{cfg: cfg, keys: keys, txs: []*rtx{nil}, vlen: 1}
 	// the process-global sequence counter is anywhere (other databases of this process may have
 	// advanced it); only wrap-around is excluded (DESIGN 6.2)
-	c0 := nd.U64("process-counter")
-	nd.Assume(c0 < 1<<62)
-	sequence.VerifSetCounter(c0)
+	if concreteCounter {
+		sequence.VerifSetCounter(0)
+	} else {
+		c0 := nd.U64("process-counter")
+		nd.Assume(c0 < 1<<62)
+		sequence.VerifSetCounter(c0)
+	}
 	w.d, w.c = openSeq(cfg)
 	return w
 }
@@ -157,6 +173,8 @@ func (w *world) freshVal() []byte {
 
 func (w *world) doSet(t int, key string, val []byte, how int) error {
 	st := w.store(t)
+	w.pend = &pendingOp{kind: 0, t: t, key: key, val: val}
+	defer func() { w.pend = nil }()
 	var err error
 	switch how {
 	case 0:
@@ -186,6 +204,8 @@ func (w *world) doSet(t int, key string, val []byte, how int) error {
 }
 
 func (w *world) doDelete(t int, key string) error {
+	w.pend = &pendingOp{kind: 1, t: t, key: key}
+	defer func() { w.pend = nil }()
 	err := w.store(t).Delete(ctx, key)
 	if err == nil {
 		w.vs = append(w.vs, rver{key: key, del: true, owner: t, pos: w.tick()})
@@ -224,7 +244,9 @@ func (w *world) commit(t int, id string) {
 			}
 		}
 	}
+	w.pend = &pendingOp{kind: 2, t: t}
 	err := tx.h.Commit(ctx)
+	w.pend = nil
 	var rest []rver
 	for _, v := range w.vs {
 		if v.owner != t {
